@@ -99,3 +99,7 @@ func Snap[T any](s []T) []T {
 	copy(out, s)
 	return out
 }
+
+// ModifiesAll declares that the called function may write any memory
+// reachable from its arguments (no frame is claimed).
+func ModifiesAll() {}
